@@ -65,7 +65,7 @@ func spec(nonce int) []byte {
 		"grid": map[string]any{"type": "array", "default": []any{[]any{map[string]any{}}}, "items": map[string]any{"type": "array", "items": map[string]any{"type": "object", "properties": map[string]any{
 			"cell": map[string]any{"type": "integer", "default": 1}}}}},
 		// a schema with a list of types, shared with a query parameter: the order of the list says how text is read
-		"tid": map[string]any{"$ref": "#/components/schemas/Tid"},
+		"tid":  map[string]any{"$ref": "#/components/schemas/Tid"},
 		"kind": map[string]any{"oneOf": []any{map[string]any{"type": "string", "enum": []any{"x"}}, map[string]any{"type": "integer", "minimum": 5}}},
 	}}
 	doc := kinx.Doc(map[string]any{
@@ -125,6 +125,8 @@ func spec(nonce int) []byte {
 			"additionalProperties": map[string]any{"type": "object", "properties": map[string]any{"label": map[string]any{"type": "string"}}}}},
 		"securitySchemes": map[string]any{"key": map[string]any{"type": "apiKey", "name": "X-Key", "in": "header"}, "alt": map[string]any{"type": "http", "scheme": "bearer"}},
 		"headers":         map[string]any{"Meta": map[string]any{"content": map[string]any{"application/json": map[string]any{"schema": map[string]any{"type": "object", "properties": map[string]any{"v": map[string]any{"type": "integer"}}}}}}}})
+	// two servers on one host: what a route says about its server belongs to the request that was routed
+	doc["servers"] = []any{map[string]any{"url": "http://localhost"}, map[string]any{"url": "http://localhost/alt"}}
 	b, _ := json.Marshal(doc)
 	return b
 }
@@ -258,13 +260,24 @@ func (w *world) run(op Op) string {
 		if op.Kind == "route-l" {
 			r = w.leg
 		}
-		paths := []string{"/items/i1-1", "/items", "/nope", "/items/a/b"}
+		paths := []string{"/items/i1-1", "/items", "/nope", "/items/a/b", "/alt/items", "/alt/items/i1-1"}
 		req, _ := http.NewRequest([]string{"GET", "POST", "PUT"}[op.Variant%3], "http://localhost"+paths[op.Variant%len(paths)], nil)
 		route, _, err := r.FindRoute(req)
 		if err != nil {
 			return "route-error"
 		}
-		return "route:" + route.Path + ":" + route.Method
+		srv := ""
+		if route.Server != nil {
+			srv = route.Server.URL
+		}
+		if op.Kind == "route-l" {
+			// the legacy router hands out the route it keeps: read it again after a moment of other work
+			runtime.Gosched()
+			if route.Server != nil && route.Server.URL != srv {
+				return "route-changed-under-the-caller"
+			}
+		}
+		return "route:" + route.Path + ":" + route.Method + "@" + srv
 	case "request", "request-skip", "request-ci":
 		req := w.request(op.Variant)
 		route, pp, err := w.gmux.FindRoute(req)
